@@ -34,10 +34,32 @@ NoChain == [mode |-> "", fn |-> 0, ff |-> <<>>, fl |-> <<>>, bn |-> 0, bf |-> <<
 
 B01(b) == IF b THEN 1 ELSE 0
 
+\* The shape of the table Load() builds (ZoneImpl!Table) is observable through description():
+\* "#trans=<n> #types=<m> spec='<footer>'" - for zones without a DST rule the model predicts it.
+Str(s) == s
+TableLen(Z) == LET n1 == Z.n + (IF Z.n = 0 \/ ~(Z.at[1] \prec WZero) THEN 1 ELSE 0)
+                   lastNeg == IF Z.n = 0 THEN TRUE ELSE Z.at[Z.n] \prec WZero
+               IN  n1 + (IF lastNeg THEN 1 ELSE 0)
+DescOf(Z, D) == <<35, 116, 114, 97, 110, 115, 61>> \o WDec(W(TableLen(Z))) \o <<32, 35, 116, 121, 112, 101, 115, 61>>
+                \o WDec(W(D.typecnt)) \o <<32, 115, 112, 101, 99, 61, 39>> \o D.footer \o <<39>>
+\* with a DST rule the table is extended by the rule instants of 403 rule years (the local year of
+\* the last recorded transition and the 402 following) that lie after that transition
+ExtCount(Z) ==
+  LET la == LastAt(Z)
+      y0 == LocalCiv0(la, LastType(Z).off)[1]
+      j0 == DaysFromCivil(y0, 1, 1)
+      two == RuleYears2(Z, j0, WMod(y0, 400), (Weekday(j0) + 1) % 7)          \* the instants of years y0, y0+1
+  IN  2 * 403 - Cardinality({i \in 1..Len(two) : two[i].at \preceq la})
+TransPrefix(n) == <<35, 116, 114, 97, 110, 115, 61>> \o WDec(W(n)) \o <<32>>
 OkLoad(e) == /\ e.ub = 0
              /\ Class[e.z] = "zic" => e.ok = 1
              /\ Class[e.z] = "mustfail" => e.ok = 0
              /\ e.isutc = 1 - e.ok
+             /\ (Class[e.z] = "zic" /\ ZT[e.z].rule.kind \in {"none", "std"}) => e.desc = DescOf(ZT[e.z], Dec[e.z])
+             /\ (Class[e.z] = "zic" /\ ZT[e.z].rule.kind = "dst" /\ W(-1000000000) \prec LastAt(ZT[e.z])) =>
+                  LET Z == ZT[e.z]
+                      p == TransPrefix(Z.n + (IF Z.n = 0 \/ ~(Z.at[1] \prec WZero) THEN 1 ELSE 0) + ExtCount(Z)) IN
+                  Len(e.desc) >= Len(p) /\ SubSeq(e.desc, 1, Len(p)) = p
 
 OkBreak(e) == /\ e.ub = 0
               /\ Oracle(e.z) => LET b == Break(ZT[e.z], e.t) IN
